@@ -25,6 +25,11 @@ var lockShapes = []lockReq{
 	{"R(a)W(b)", command.Accounts{Read: []string{"a"}, Write: []string{"b"}}},
 	{"W(a,b)", command.Accounts{Write: []string{"a", "b"}}},
 	{"R(a,b)", command.Accounts{Read: []string{"a", "b"}}},
+	// what the Commander really asks for: every involved account for reading and the sources among them for writing too;
+	// and the same account named twice (two resources of a script designating one account)
+	{"R(a,b)W(a)", command.Accounts{Read: []string{"a", "b"}, Write: []string{"a"}}},
+	{"R(a,a)", command.Accounts{Read: []string{"a", "a"}}},
+	{"R(a,a,b)W(b,b)", command.Accounts{Read: []string{"a", "a", "b"}, Write: []string{"b", "b"}}},
 }
 
 func conflicts(x, y command.Accounts) bool {
@@ -187,6 +192,79 @@ func barrierScenario(name string, waiters []int) *explore.Scenario {
 	}}
 }
 
+// dependentScenario: holder H1 keeps its lock UNTIL request X has been granted; holder H2 releases on its own. X conflicts
+// with H2 only, so once H2 has released X must be granted - whatever else is queued (request B, blocked by H1, may sit in
+// front of it). If X waits for H1 as well (for instance because the queue is served strictly in order) nothing moves.
+func dependentScenario(name string, h1, h2, blocked, x int) *explore.Scenario {
+	return &explore.Scenario{Name: name, Exec: func(r *explore.Replayer) explore.Outcome {
+		s := verifrt.New(r)
+		locker := command.NewDefaultLocker()
+		ctx := quietCtx()
+		xGranted := verifrt.MakeChan[struct{}]()
+		holding := verifrt.MakeChan[struct{}]()
+		held := verifrt.MakeChan[struct{}](2)
+		var order []string
+		s.Spawn("H1:"+lockShapes[h1].Name, false, func() {
+			unlock, err := locker.Lock(ctx, lockShapes[h1].Acc)
+			if err != nil {
+				return
+			}
+			order = append(order, "H1")
+			held.Send(struct{}{})
+			holding.Recv() // both holders hold before anything is queued
+			xGranted.Recv()
+			unlock(ctx)
+		})
+		s.Spawn("H2:"+lockShapes[h2].Name, false, func() {
+			unlock, err := locker.Lock(ctx, lockShapes[h2].Acc)
+			if err != nil {
+				return
+			}
+			order = append(order, "H2")
+			held.Send(struct{}{})
+			holding.Recv()
+			verifrt.Point("holding " + lockShapes[h2].Name)
+			unlock(ctx)
+		})
+		s.Spawn("gate", false, func() {
+			// let the two holders in first: the queue is built while both hold
+			held.Recv()
+			held.Recv()
+			holding.Close()
+		})
+		spawnWaiter := func(tag string, k int, signal bool) {
+			s.Spawn(tag+":"+lockShapes[k].Name, false, func() {
+				holding.Recv()
+				unlock, err := locker.Lock(ctx, lockShapes[k].Acc)
+				if err != nil {
+					return
+				}
+				order = append(order, tag)
+				if signal {
+					xGranted.Close()
+				}
+				unlock(ctx)
+			})
+		}
+		spawnWaiter("B", blocked, false)
+		spawnWaiter("X", x, true)
+		reason := s.Run()
+		viol, vkey := "", ""
+		if reason == verifrt.Deadlock {
+			viol = fmt.Sprintf("request X=%s conflicts only with H2=%s, which has released, but is not granted while H1=%s still holds and B=%s is queued: a pending request is not granted although no conflicting holder remains (%s)", lockShapes[x].Name, lockShapes[h2].Name, lockShapes[h1].Name, lockShapes[blocked].Name, strings.Join(s.PendingDescs(), " | "))
+			vkey = "not-granted-behind-blocked"
+		}
+		for _, t := range s.Threads() {
+			if t.Panic != nil && viol == "" {
+				viol, vkey = fmt.Sprintf("panic in %s: %v", t.Name, t.Panic), "panic"
+			}
+		}
+		s.KillAll()
+		lab := "order=" + strings.Join(order, ",")
+		return explore.Outcome{State: lab, Label: lab, Violation: viol, VKey: vkey}
+	}}
+}
+
 func pairKey(a, b string) string {
 	if a > b {
 		a, b = b, a
@@ -215,8 +293,27 @@ func planC15() []planItem {
 		}
 	}
 	// one release must grant every waiter it unblocks (waiter sets: mutually compatible shapes)
-	for _, ws := range [][]int{{1, 2}, {1, 1}, {0, 2}, {1, 5}, {5, 5}, {1, 1, 2}, {1, 1, 5}, {3, 1}} {
+	for _, ws := range [][]int{{1, 2}, {1, 1}, {0, 2}, {1, 5}, {5, 5}, {1, 1, 2}, {1, 1, 5}, {3, 1}, {7, 1}, {7, 7}, {7, 5, 1}, {7, 2}} {
 		out = append(out, planItem{register(barrierScenario(fmt.Sprintf("barrier-%v", ws), ws)), 3, 4})
+	}
+	// a request blocked by one holder must not keep back a request that only waited for another holder
+	for h1 := 0; h1 < 6; h1++ {
+		for h2 := 0; h2 < 6; h2++ {
+			if conflicts(lockShapes[h1].Acc, lockShapes[h2].Acc) {
+				continue
+			}
+			for b := 0; b < 6; b++ {
+				if !conflicts(lockShapes[b].Acc, lockShapes[h1].Acc) {
+					continue
+				}
+				for x := 0; x < 6; x++ {
+					if !conflicts(lockShapes[x].Acc, lockShapes[h2].Acc) || conflicts(lockShapes[x].Acc, lockShapes[h1].Acc) {
+						continue
+					}
+					out = append(out, planItem{register(dependentScenario(fmt.Sprintf("dependent-%d%d%d%d", h1, h2, b, x), h1, h2, b, x)), 2, 3})
+				}
+			}
+		}
 	}
 	// four requests (thorough)
 	for i := 0; i < n; i++ {
